@@ -78,7 +78,7 @@ theorem push_rel {s s' : MState} (h : StateEraseEq s s') {v v' : Val} (hv : Req 
   rw [h.valLen]
   split
   · exact .err rfl
-  · exact .ok ⟨.cons hv h.val, h.env, by simp [h.valLen], h.envLen, h.ops, h.guards, h.allocs, h.ctr⟩
+  · exact .ok ⟨.cons hv h.val, h.env, by simp, h.envLen, h.ops, h.guards, h.allocs, h.ctr⟩
 
 theorem pushEnv_rel {s s' : MState} (h : StateEraseEq s s') {v v' : Val} (hv : Req v v') :
     MR StateEraseEq (s.pushEnv v) (s'.pushEnv v') := by
@@ -86,7 +86,7 @@ theorem pushEnv_rel {s s' : MState} (h : StateEraseEq s s') {v v' : Val} (hv : R
   rw [h.envLen]
   split
   · exact .err rfl
-  · exact .ok ⟨h.val, .cons hv h.env, h.valLen, by simp [h.envLen], h.ops, h.guards, h.allocs, h.ctr⟩
+  · exact .ok ⟨h.val, .cons hv h.env, h.valLen, by simp, h.ops, h.guards, h.allocs, h.ctr⟩
 
 theorem pushOp_rel {s s' : MState} (h : StateEraseEq s s') (o : Operation) :
     StateEraseEq (s.pushOp o) (s'.pushOp o) :=
@@ -589,5 +589,190 @@ theorem eval_retag (cfg : Cfg) {d : Dialect} (hd : DialectRepr d) (fuel : Nat) (
           simp only at hv hs2 hr hr'
           cases hr; cases hr'
           exact ⟨rfl, hv.2.2, by rw [hs2.ctr], by rw [hs2.ctr], by rw [hs2.ctr], fun _ => by rw [hs2.ctr]⟩
+
+/-! ### instantiation: `ChiaDialect` with the `op_substr` defect region guarded -/
+
+/-- value part of `OpWf`: results of an operator on well-formed arguments are well-formed -/
+def OpValWf (f : OpFn) : Prop :=
+  ∀ (flags m : Nat) (a : Val) (c : Ctr) (k : Nat) (v : Val) (c' : Ctr),
+    a.wf = true → f flags m a c = .ok (k, v, c') → v.wf = true
+
+theorem OpWf.valWf {f : OpFn} (h : OpWf f) : OpValWf f :=
+  fun flags m a c k v c' hw he => (h flags m a c (k, v, c') hw he).1
+
+/-- answer "unsupported" for the calls selected by `G` -/
+def Dialect.guard (d : Dialect) (G : Val → Val → Bool) : Dialect :=
+  { d with op := fun o args m ext c => if G o args then none else d.op o args m ext c }
+
+/-- one run's side of the defect region of `op_substr`: the source atom is inline and the selected
+sub-string is not a canonical small integer (`new_substr` then appends it to the heap) -/
+def substrInlineDefect (args : Val) : Bool :=
+  match substrParse args with
+  | .ok (.atom b true, s, e) => (fitsInSmallAtom ((b.drop s).take (e - s))).isNone
+  | _ => false
+
+/-- the operator atom selects `op_substr` in `ChiaDialect::op` -/
+def isSubstrOp (o : Val) : Bool :=
+  match smallNumber o with
+  | some op =>
+    match lookupOp Gen.chiaOpTable op with
+    | some (name, _) => name == "op_substr"
+    | none => false
+  | none => false
+
+/-- the guarded calls: `op_substr` taking the heap-growing branch of `new_substr` -/
+def substrGuard (o args : Val) : Bool := isSubstrOp o && substrInlineDefect args
+
+theorem substrDefect_of_inline {a a' : Val} (h : Req a a')
+    (h1 : substrInlineDefect a = false) (h2 : substrInlineDefect a' = false) : substrDefect a a' = false := by
+  unfold substrDefect
+  cases hp : substrParse a with
+  | error e => rfl
+  | ok p =>
+    obtain ⟨a0, s, e⟩ := p
+    obtain ⟨b, t, rfl, _, _⟩ := substrParse_ok hp
+    obtain ⟨t', hp'⟩ := substrParse_req_atom h hp
+    rw [hp']
+    simp only [substrInlineDefect, hp, hp'] at h1 h2
+    cases t <;> cases t' <;> simp_all
+
+theorem opCallRel_of {r r' : OpRes} (h : ResEraseEq true r r')
+    (hw : ∀ k v c, r = .ok (k, v, c) → v.wf = true) (hw' : ∀ k v c, r' = .ok (k, v, c) → v.wf = true) :
+    OpCallRel (some r) (some r') := by
+  cases r with
+  | error e => cases r' with
+    | error e' => exact h
+    | ok x => exact h
+  | ok x => cases r' with
+    | error e' => exact h
+    | ok x' =>
+      obtain ⟨k, v, c⟩ := x; obtain ⟨k', v', c'⟩ := x'
+      obtain ⟨h1, h2, h3, h4, h5, h6⟩ := h
+      refine ⟨h1, ⟨hw _ _ _ rfl, hw' _ _ _ rfl, h2⟩, ?_⟩
+      have h7 := h6 rfl
+      cases c; cases c'
+      simp only at h3 h4 h5 h7
+      simp only [Ctr.mk.injEq]
+      exact ⟨h3, h4, h7, h5⟩
+
+theorem OpCallRel.none_right (x : Option OpRes) : OpCallRel x none := by
+  cases x <;> trivial
+
+theorem opCallRel_op {f : OpFn} (hr : OpRepr true f) (hw : OpValWf f) (flags m : Nat) {a a' : Val} (h : Req a a')
+    (c : Ctr) : OpCallRel (some (f flags m a c)) (some (f flags m a' c)) :=
+  opCallRel_of (hr flags m a a' c h.1 h.2.1 h.2.2) (fun k v c' e => hw flags m a c k v c' h.1 e)
+    (fun k v c' e => hw flags m a' c k v c' h.2.1 e)
+
+theorem unknownOperator_rel (hunk : ∀ op, OpWf (opUnknown op)) (ob : Bytes) (flags m : Nat) {a a' : Val}
+    (h : Req a a') (c : Ctr) :
+    OpCallRel (some (unknownOperator ob a flags m c)) (some (unknownOperator ob a' flags m c)) := by
+  unfold unknownOperator
+  split
+  · exact rfl
+  · exact opCallRel_op (opUnknown_repr ob) (hunk ob).valWf flags m h c
+
+theorem op4_not_substr : ∀ e ∈ Gen.chiaOp4Table, e.2 ≠ "op_substr" := by decide
+
+/-- **the simulation hypothesis holds for `ChiaDialect`** (without `ENABLE_GC`) once the calls of
+`op_substr` inside the defect region are guarded, given that operator results are well-formed
+(`OpWf`) and that the extra (cryptographic) operators are representation independent -/
+theorem chiaDialect_repr (cfg : Cfg) (extra : String → Option OpFn) (flags0 : Flags)
+    (hcore : ∀ name f, coreOpByName cfg name = some f → OpWf f)
+    (hunk : ∀ op, OpWf (opUnknown op))
+    (hextra : ∀ name f, extra name = some f → OpRepr true f ∧ OpWf f)
+    (hgc : hasFlag (chiaDialect cfg extra flags0).flags Gen.FLAG_ENABLE_GC = false) :
+    DialectRepr ((chiaDialect cfg extra flags0).guard substrGuard) := by
+  constructor
+  · intro o o' _
+    show (chiaDialect cfg extra flags0).gcCandidate o = (chiaDialect cfg extra flags0).gcCandidate o'
+    have hgc' := hgc
+    simp only [chiaDialect] at hgc' ⊢
+    simp only [hgc', Bool.not_false, if_true]
+  · intro o o' args args' m ext c ho ha
+    show OpCallRel (if substrGuard o args then none else (chiaDialect cfg extra flags0).op o args m ext c)
+      (if substrGuard o' args' then none else (chiaDialect cfg extra flags0).op o' args' m ext c)
+    by_cases hg : substrGuard o args = true
+    · simp only [hg, if_true]; trivial
+    by_cases hg' : substrGuard o' args' = true
+    · simp only [hg', if_true]
+      exact OpCallRel.none_right _
+    simp only [hg, hg', if_false]
+    have hg1 : substrGuard o args = false := by simpa using hg
+    have hg2 : substrGuard o' args' = false := by simpa using hg'
+    -- the operator table
+    have call : ∀ (flags : Flags) (name : String),
+        (name = "op_substr" → substrInlineDefect args = false ∧ substrInlineDefect args' = false) →
+        OpCallRel
+          (match coreOpByName cfg name with
+            | some f => some (f flags m args c)
+            | none => match extra name with
+              | some f => some (f flags m args c)
+              | none => none)
+          (match coreOpByName cfg name with
+            | some f => some (f flags m args' c)
+            | none => match extra name with
+              | some f => some (f flags m args' c)
+              | none => none) := by
+      intro flags name hname
+      cases hc : coreOpByName cfg name with
+      | some f =>
+        simp only []
+        by_cases hn : name = "op_substr"
+        · have hf : f = opSubstr := by subst hn; simp [coreOpByName] at hc; exact hc.symm
+          subst hf
+          obtain ⟨d1, d2⟩ := hname hn
+          exact opCallRel_of
+            (opSubstr_repr_heap_partial flags m args args' c ha.1 ha.2.1 ha.2.2 (substrDefect_of_inline ha d1 d2))
+            (fun k v c' e => (hcore name _ hc).valWf flags m args c k v c' ha.1 e)
+            (fun k v c' e => (hcore name _ hc).valWf flags m args' c k v c' ha.2.1 e)
+        · exact opCallRel_op (coreOps_repr cfg name f hc hn) (hcore name f hc).valWf flags m ha c
+      | none =>
+        simp only []
+        cases he : extra name with
+        | some f => exact opCallRel_op (hextra name f he).1 (hextra name f he).2.valWf flags m ha c
+        | none => trivial
+    show OpCallRel (chiaOp cfg extra (chiaDialect cfg extra flags0).flags o args m ext c)
+      (chiaOp cfg extra (chiaDialect cfg extra flags0).flags o' args' m ext c)
+    generalize (chiaDialect cfg extra flags0).flags = dflags
+    unfold chiaOp
+    simp only []
+    generalize (dflags ||| match ext with
+      | .Default => 0 | .Bls => 0 | .Keccak => Gen.FLAG_ENABLE_KECCAK_OPS_OUTSIDE_GUARD
+      | .PreHardFork => Gen.FLAG_ENABLE_KECCAK_OPS_OUTSIDE_GUARD) = flags
+    cases ho.cases with
+    | pair _ _ _ _ _ _ => exact rfl
+    | atom ob t t' _ _ =>
+      simp only []
+      split
+      · -- four-byte opcodes
+        cases hf : List.find? (fun e => e.1 == beNat ob) Gen.chiaOp4Table with
+        | none => exact unknownOperator_rel hunk ob flags m ha c
+        | some e =>
+          obtain ⟨x, name⟩ := e
+          simp only []
+          exact call flags name (fun hn => absurd hn (op4_not_substr _ (List.mem_of_find?_eq_some hf)))
+      · split
+        · exact unknownOperator_rel hunk ob flags m ha c
+        · rw [smallNumber_req ho]
+          cases hsn : smallNumber (Val.atom ob t') with
+          | none => exact unknownOperator_rel hunk ob flags m ha c
+          | some op =>
+            simp only []
+            cases hl : lookupOp Gen.chiaOpTable op with
+            | none => exact unknownOperator_rel hunk ob flags m ha c
+            | some e =>
+              obtain ⟨name, req⟩ := e
+              simp only []
+              split
+              · exact unknownOperator_rel hunk ob flags m ha c
+              · split
+                · exact rfl
+                · refine call flags name (fun hn => ?_)
+                  have i1 : isSubstrOp (Val.atom ob t) = true := by
+                    simp only [isSubstrOp, smallNumber_req ho, hsn, hl, hn, beq_self_eq_true]
+                  have i2 : isSubstrOp (Val.atom ob t') = true := by
+                    simp only [isSubstrOp, hsn, hl, hn, beq_self_eq_true]
+                  simp only [substrGuard, i1, i2, Bool.true_and] at hg1 hg2
+                  exact ⟨hg1, hg2⟩
 
 end Clvm.Interp
